@@ -2,17 +2,22 @@ import GeffProofs.KV
 namespace Geff.KV
 open Gen.Paths Prog
 
-/-! ### the geff attribute is written last -/
-
 def blobNoGeff : Blob → Bool
   | .root (some _) _ => false
   | _ => true
 
-/-- the mutation does not store a root attribute document with a `geff` entry -/
 def noGeffOp : Op → Bool
   | .set _ b => blobNoGeff b
   | .setnx _ b => blobNoGeff b
   | _ => true
+
+theorem geffOf_noGeff (b : Blob) (h : blobNoGeff b = true) :
+    (match some b with | some (Blob.root g _) => g | _ => none) = none := by
+  cases b with
+  | raw _ => rfl
+  | root g o => cases g with
+    | none => rfl
+    | some _ => simp [blobNoGeff] at h
 
 theorem geffAttrIn_step_none (f : Fmt) (s : KV) (op : Op) (h : geffAttrIn f s = none)
     (ho : noGeffOp op = true) : geffAttrIn f (step s op) = none := by
@@ -20,26 +25,23 @@ theorem geffAttrIn_step_none (f : Fmt) (s : KV) (op : Op) (h : geffAttrIn f s = 
   rw [get_step]
   cases op with
   | set k b =>
-    simp only
-    split_ifs with hk
-    · cases b with
-      | raw _ => rfl
-      | root g o => cases g with
-        | none => rfl
-        | some _ => simp [noGeffOp, blobNoGeff] at ho
-    · exact h
+    by_cases hk : rootDocKey f = k
+    · simp only [hk, if_true]; exact geffOf_noGeff b ho
+    · simp only [hk, if_false]; exact h
   | setnx k b =>
-    simp only
-    split_ifs with hk hh
-    · exact h
-    · cases b with
-      | raw _ => rfl
-      | root g o => cases g with
-        | none => rfl
-        | some _ => simp [noGeffOp, blobNoGeff] at ho
-    · exact h
-  | del k => simp only; split_ifs <;> first | rfl | exact h
-  | delPrefix p => simp only; split_ifs <;> first | rfl | exact h
+    by_cases hk : rootDocKey f = k
+    · by_cases hh : has s k
+      · simp only [hk, hh, if_true] at h ⊢; exact h
+      · simp only [hk, hh, if_true]; exact geffOf_noGeff b ho
+    · simp only [hk, if_false]; exact h
+  | del k =>
+    by_cases hk : rootDocKey f = k
+    · simp only [hk, if_true]
+    · simp only [hk, if_false]; exact h
+  | delPrefix p =>
+    by_cases hk : under p (rootDocKey f)
+    · simp only [hk, if_true]
+    · simp only [hk]; exact h
   | clear => rfl
 
 end Geff.KV
